@@ -72,7 +72,7 @@ def run():
     bad = [r for r in res if r[1]]
     c.bounded["fault_enumeration"] = {"evaluations": len(res), "distinct_nontrivial": len(res), "exhaustive": True, "rule": "real write_vhdl_file in a forked child on real files: each of the 7 OS-call sites x {PermissionError, FileNotFoundError, OSError(ENOSPC) (partial write for write sites), kill right before, kill right after} x 4 file modes (0600, 0755, 0444, 0644), plus the fault-free run; every scenario is distinct"}
     for sc, problems in bad[:1]:
-        c.findings.append(Finding("bounded", "fault:%s:%s" % (sc[0], sc[1]), "call=%s fault=%s mode=%o: %s" % (sc[0], sc[1], sc[2], "; ".join(problems)), {"scenario": list(sc), "observed": problems, "how_to_rerun": "cd /verif && /venv/bin/python -c 'from bounded import faults; print(faults.run_scenario(%r))'" % (sc,)}, "%s/%s/%o" % sc))
+        c.findings.append(Finding("bounded", "fault:%s:%s%s" % (sc[0], sc[1], ":symlink" if len(sc) > 3 else ""), "call=%s fault=%s mode=%o%s: %s" % (sc[0], sc[1], sc[2], " symlink" if len(sc) > 3 else "", "; ".join(problems)), {"scenario": list(sc), "observed": problems, "how_to_rerun": "cd /verif && /venv/bin/python -c 'from bounded import faults; print(faults.run_scenario(%r))'" % (sc,)}, "/".join([sc[0], sc[1], "%o" % sc[2]] + list(sc[3:]))))
     probs = never_modified_on_error(None)
     c.bounded["never_modified_on_error"] = {"evaluations": 4, "distinct_nontrivial": 4, "rule": "real CLI --fix (with/without --backup) on a file with a syntax error and on a good file with an invalid configuration (unknown rule, deprecated rule): bytes, inode, mtime and mode unchanged"}
     for p in probs[:1]:
@@ -82,7 +82,7 @@ def run():
         if f.kind == "obligation" and not f.found_input and bad:
             f.replay["failing_input"] = {"scenario": list(bad[0][0]), "observed": bad[0][1]}
             f.found_input = True
-            f.witness = "%s/%s/%o" % bad[0][0]
+            f.witness = "/".join([bad[0][0][0], bad[0][0][1], "%o" % bad[0][0][2]] + list(bad[0][0][3:]))
     if c.tier == "thorough":
         run_selftest(c, ["mutants_writeback.py", "mutants_applyrules.py"], lambda eng: QUALS[:3])
     c.trusted += ["assumed contract: %s — %s" % (q, ct["trusted"]) for q, ct in sorted(c.engine.contracts.items()) if ct.get("trusted") and (q.startswith("os.") or q.startswith("builtins.") or q.startswith("shutil."))]
